@@ -1,8 +1,8 @@
 #!/bin/bash
-# usage: benignregress.sh "<checks>"  — applies every kept benign patch to /repo in turn and runs the given checks (quick); all must stay quiet
+# usage: benignregress.sh "<checks>" ["<seeded/benign-dirs>"]  — applies every kept benign patch to /repo in turn and runs the given checks (quick); all must stay quiet
 checks=${1:-"C01 C02 C03 C04 C05 C06 C07 C08 C09 C10 C11 C12 C13 C14 C15 C16 C17 C18 C19"}
 cd /verif
-for d in seeded/benign-*; do
+for d in ${2:-seeded/benign-*}; do
   b=$(basename $d)
   git -C /repo apply /verif/$d/patch.diff 2>/dev/null || { echo "$b: patch does not apply"; continue; }
   res=""
